@@ -97,7 +97,11 @@ class Prop(BaseProp):
                 lines.append(t)
                 classes.append(c)
             return lines
-        b = Builder(rng, p_doc=0.8, max_depth=3, mkdoc=mkdoc, max_items=5, compound_generic=False)
+        big = idx % 40 == 7 and not ascii_only
+        # big: a module of several tens of kilobytes with non-ASCII text everywhere (block-wise readers, buffers)
+        b = Builder(rng, p_doc=0.9 if big else 0.8, max_depth=3, mkdoc=mkdoc, max_items=90 if big else 5, compound_generic=False)
+        if big:
+            res.count("large_modules")
         mod = b.module(module_doc=rng.random() < 0.3, module_name=rng.choice(["", "", "modN0Z", "my.mod-N0Z"]))
         # leaderless variant for some documented items: unindented, letter-initial lines
         for it in mod.walk():
@@ -118,6 +122,8 @@ class Prop(BaseProp):
         if mod.module_doc is not None:
             lay_ind = rng.choice(["", "", " ", "  ", "\t", "    "])
         text = render(mod, lay)
+        if big:
+            res.count("large_module_bytes", len(text.encode("utf-8")))
         if mod.module_doc is not None and lay_ind:
             # re-indent the module doccomment block uniformly (it is the first block of the file)
             end = text.index("#]]\n") + 4
